@@ -81,7 +81,7 @@ Proof. exact sync_eval_flag. Qed.
 Print Assumptions C11_status_register_tracks_the_trace.
 
 (* the priority table of the source (gen/Tables.v, regenerated on every run) is the model's *)
-From LD Require Import TablesProof.
+From LD Require Import TablesStatus.
 From LDGen Require Import Tables.
 From Coq Require Import String.
 Theorem C11_status_priorities_match_source :
